@@ -81,8 +81,9 @@ def e1(ctx):
                     continue
                 a = c.args[0]
                 ok, how = False, src(a)
-                if dotted(a) == "self.etag" and fi.cls is not None and fi.cls.qualname == OBJ:
-                    ok, how = True, "ObjectResource.etag"
+                if fi.cls is not None and fi.cls.qualname == OBJ and (dotted(a) == "self.etag" or (lambda og: bool(og) and all(
+                        k == "expr" and dotted(v) == "self.etag" and not idx for k, v, idx in og))(_origin(du, n, a))):
+                    ok, how = True, "ObjectResource.etag"       # directly, or through a local
                 elif (lambda og: bool(og) and all(k == "expr" and isinstance(v, ast.Call) and dotted(v.func) == "self.store.get_ctag" and not idx
                                                   for k, v, idx in og))(_origin(du, n, a)):
                     ok, how = True, "store.get_ctag()"
@@ -143,8 +144,18 @@ def e2(ctx):
     obs.append(ctx.ob(ok, rd.qualname, rd.where, "render() etag slot is self.get_etag()", "render()[2] = await self.get_etag()",
                       "Resource.render no longer returns self.get_etag() in its etag slot: GET/HEAD and PROPFIND can disagree"))
     og = ctx.own_method(OBJ, "get_etag")
-    ok = any(isinstance(n, ast.Return) and isinstance(n.value, ast.Call) and (dotted(n.value.func) or "").endswith("create_strong_etag")
-             and n.value.args and dotted(n.value.args[0]) == "self.etag" for n in walk_local(og.node))
+    ocfg = ctx.cfg(og)
+    odu = DefUse(ocfg)
+    ok = False
+    for n in ocfg.nodes:
+        if n.kind == "return" and isinstance(n.ast, ast.Return) and n.ast.value is not None:
+            rv = _origin(odu, n, n.ast.value)
+            good = bool(rv) and all(k == "expr" and isinstance(v, ast.Call) and (dotted(v.func) or "").endswith("create_strong_etag") and v.args and not idx for k, v, idx in rv)
+            if good:
+                for k, v, idx in rv:
+                    ao = _origin(odu, n, v.args[0])
+                    good = good and (dotted(v.args[0]) == "self.etag" or (bool(ao) and all(k2 == "expr" and dotted(v2) == "self.etag" and not i2 for k2, v2, i2 in ao)))
+            ok = ok or good
     obs.append(ctx.ob(ok, og.qualname, og.where, "ObjectResource.get_etag quotes self.etag", "create_strong_etag(self.etag)",
                       "ObjectResource.get_etag does not return create_strong_etag(self.etag)"))
     # report generators: no direct etag access
